@@ -70,7 +70,9 @@ def run(ctx, cases_override=None):
         "evaluations": res["events"] - res["traces"],
         "distinct_nontrivial": len(distinct),
         "rule": "one evaluation = one compress(+decompress+decompress_secure) round trip of the real code judged by TLC; "
-                "non-trivial = compress succeeded and did not store raw (distinct (selector, length, class))",
+                "non-trivial = compress succeeded and did not store raw (distinct (selector, length, class)); ratio-target cases "
+                "are round trips at a length found by bisection over the real compressor; a Hist event = one unit decompressed k "
+                "times in one process (counted in `outcomes`)",
         "cases_generated_by_tlc": ncases,
         "outcomes": kinds,
         "exhaustive": False,
